@@ -539,6 +539,14 @@ Definition neg_rank_cell (col : list cell) (x : cell) : cell := CI (- rank_in co
 Definition set_nth {A} (i : nat) (v : A) (l : list A) : list A :=
   map (fun jc => if Nat.eqb (fst jc) i then v else snd jc) (enumerate l).
 
+(* Python's < between the objects of a column: None compares with nothing, numbers (int, bool, float)
+   with numbers, strings with strings *)
+Definition py_class (c : cell) : Z := match c with CN => 0 | CS _ => 2 | _ => 1 end.
+
+Definition incomparable_col (col : list cell) : bool :=
+  existsb (fun c => py_class c =? 0) col ||
+  (existsb (fun c => py_class c =? 1) col && existsb (fun c => py_class c =? 2) col).
+
 (* one [for c in reverse] step: numeric columns are negated in place; any other
    column is REPLACED by the negated rank of the values of the original column *)
 Definition reverse_step (t : table) (columns : list str) (data : res (list (list cell))) (c : str)
@@ -553,7 +561,9 @@ Definition reverse_step (t : table) (columns : list str) (data : res (list (list
           | DFloat => Ok (map (fun jc => if Nat.eqb (fst jc) i then map reverse_cell (snd jc) else snd jc) (enumerate d))
           | DStr => Ok (set_nth i (map (neg_rank_cell orig) orig) d)
           | DBool => Ok (set_nth i (map (neg_rank_cell orig) orig) d)
-          | DObj => Er E_NotModelled
+          | DObj =>
+              (* numpy.unique sorts the values of the column: TypeError when they cannot be compared *)
+              if Nat.leb 2 (nrows t) && incomparable_col orig then Er E_Type else Er E_NotModelled
           end)
     end).
 
@@ -569,10 +579,22 @@ Definition sortable_dtype (c : list cell) : bool :=
 Definition argsort (keys : list (list cell)) : list nat :=
   map snd (isort_by (fun a b => key_leb (fst a) (fst b)) (combine keys (seq 0 (length keys)))).
 
+(* an object-dtype FIRST key column (None / mixed values) of a table with >= 2 rows: every sort has to
+   compare its values; Python raises TypeError as soon as None, or a number and a string, are compared.
+   Other object-dtype keys (numbers of different Python types; object columns that are only compared on
+   ties of earlier keys) are not modelled. *)
+Definition object_key_error (t : table) (kcols : list (list cell)) : res table :=
+  match kcols with
+  | k0 :: _ =>
+      if Nat.leb 2 (nrows t) && negb (sortable_dtype k0) && incomparable_col k0 then Er E_Type
+      else Er E_NotModelled
+  | [] => Er E_NotModelled
+  end.
+
 Definition sorted (t : table) (columns reverse : option (list str)) : res table :=
   let '(columns, rev) := sort_columns t columns reverse in
   bind (sort_keys t columns rev) (fun kcols =>
-    if negb (forallb sortable_dtype kcols) then Er E_NotModelled
+    if negb (forallb sortable_dtype kcols) then object_key_error t kcols
     else
       let keys := map (row_at kcols) (seq 0 (nrows t)) in
       let indices := argsort keys in
